@@ -236,6 +236,12 @@ Definition thread_starts (apa delta:Z) (polyts read_starts:list Z) (incoming:lis
     end
   end.
 
+(* ---------------------------------------------------------------- IntronGraph.is_start_internal / is_end_internal *)
+(* incoming / outgoing: the intron vertices adjacent to the read's first / last intron (what incoming_edges / outgoing_edges hold when
+   collect_terminal_positions runs); a read start is internal if it does not lie left of the END of some preceding intron (minus delta) *)
+Definition is_start_internal (delta:Z) (incoming:list iv) (read_start:Z) : bool := existsb (fun inc => snd inc - delta <=? read_start) incoming.
+Definition is_end_internal (delta:Z) (outgoing:list iv) (read_end:Z) : bool := existsb (fun out => fst out + delta >=? read_end) outgoing.
+
 (* ---------------------------------------------------------------- mirror image of an event *)
 Definition is_polya_pos_type (t:MES) : bool :=
   mem_mes t [MES_alternative_polya_site_left; MES_alternative_polya_site_right; MES_correct_polya_site_left; MES_correct_polya_site_right;
